@@ -2,6 +2,17 @@
 with the database each program DENOTES (written from the generator's own knowledge of what it
 emitted, never from the code under test). Used by checks/gen.py (C03, C10, C11, C19).
 
+Signal names only have to be unique inside a message. Besides the signals drawn from the program's
+main random stream every program may (probability SHARE_PROB; one program of every batch always does:
+the forced shape) REUSE signal names across messages ("Shr..." signals: float32, value descriptions,
+scaled, plain; with start values / comments / VAL_ / SIG_VALTYPE_ attached), and then emits the
+metadata lines of same-named signals of different messages either where the message's other lines are
+or as one run of directly consecutive lines, in ascending and in descending message order. These
+additions draw from a second random stream derived from (not consuming) the main one, so the signals,
+messages and attribute values drawn from the main stream are the same as without them.
+
+gen_phys_batch: programs concentrated on scaled (physical) signals for the generated-code stage of C09.
+
 Database dump format (one item per line, see harness/gencommon/dbdump.go for the Go twin):
   DB s:<source> s:<version> <nmsg> <nnodes>
   NODE s:<name> s:<description>
@@ -11,6 +22,7 @@ Database dump format (one item per line, see harness/gencommon/dbdump.go for the
 ints in lower-case hex (negative ints as the hex of their uint64 reinterpretation), floats as the hex
 of their binary64 bit pattern, strings as s:+hex(utf-8 bytes).
 """
+import hashlib
 import random
 import struct
 
@@ -64,12 +76,329 @@ def pick_geometry(rng, nbits, length, used, tries=60):
 
 SCALES = ["0.1", "0.01", "0.001", "0.5", "0.25", "2", "10", "100", "1e-3", "2.5e-2", "0.0625", "-0.1", "-1", "-2.5", "3", "1E2"]
 OFFSETS = ["0", "0", "-40", "40", "0.5", "-1000", "1e3", "12.75", "-0.25"]
-UNITS = ["", "km/h", "%", "degC", "rpm", "V", "m/s"]
+UNITS = ["", "km/h", "%", "degC", "rpm", "V", "m/s", "\u00b0C", "m/s\u00b2", "a&b", "<1>", "'", "&amp;", "\u00b5s", "%d", "{x}", "1/min"]
 SENDTYPES = [("Cyclic", 1), ("Event", 2), ("None", 0), ("OnEvent", 2), ("cyclicIfActive", 1), ("Periodic", 1)]
 
 
-def gen_program(rng, name, forced_widths):
-    """returns (dbc_text, expected_db_lines, summary)"""
+SHARE_PROB = 0.6
+FLOAT_DEFAULTS = [0, 1, 5, -5, -1000, 16777216, 3221225472, -3221225472]
+DESCS = ["", "", "signal comment", "multi word, with comma"]
+VD_FORMATS = ["Val%s%d", "Val %s %d", "V\u00e4l%s%d", "val-%s_%d", "Stop & Go %s%d", "<%s%d>", "it's %s%d", "%s%d \u2713 ok", "{%s%d}", "100%% %s%d"]
+
+
+def derived_rng(rng, tag):
+    """a second stream that is a function of the main stream's current state but does not consume it"""
+    return random.Random("%s:%s" % (tag, hashlib.sha256(repr(rng.getstate()).encode()).hexdigest()))
+
+
+def decorate(r, s, nodes):
+    """scaling / metadata of one placed signal (draws from r)"""
+    s.factor, s.offset, s.min, s.max = "1", "0", "0", "0"
+    s.unit = r.choice(UNITS)
+    s.desc = r.choice(DESCS)
+    s.receivers = sorted(set(r.sample(nodes, r.randrange(0, len(nodes) + 1)))) if nodes else []
+    if not s.receivers:
+        s.receivers = ["Vector__XXX"]
+    s.default = None
+    s.vds = []
+    lo, hi = raw_range(s)
+    if not s.float and not s.is_mux and 2 <= s.length <= 52 and r.random() < 0.55:
+        s.factor = r.choice(SCALES)
+        s.offset = r.choice(OFFSETS)
+        x = r.random()
+        f, o = float(s.factor), float(s.offset)
+        a, b = sorted([lo * f + o, hi * f + o])
+        if x < 0.3:
+            pass
+        elif x < 0.6:
+            s.min, s.max = repr_float(a), repr_float(b)
+        else:
+            q = (b - a) / 4
+            s.min, s.max = repr_float(a + q), repr_float(b - q)
+    elif not s.float and not s.is_mux and s.length == 1 and r.random() < 0.25:
+        # a 1-bit signal with a factor/offset/range stays a plain bool (no physical accessors)
+        s.factor = r.choice(["2", "0.5", "1"])
+        s.offset = r.choice(["0", "1", "-1"])
+        if r.random() < 0.5:
+            s.min, s.max = "0", "1"
+    elif not s.float and not s.is_mux and s.length >= 2 and r.random() < 0.2:
+        # identity scale with a declared range equal to the raw range or narrower (<= 52 bits only)
+        if s.length <= 52 and r.random() < 0.5:
+            s.min, s.max = repr_float(lo // 2), repr_float(hi // 2)
+        elif s.length <= 52:
+            s.min, s.max = repr_float(lo), repr_float(hi)
+    if not s.float and r.random() < 0.3:
+        draw_vds(r, s)
+    if getattr(s, "force_default", None) is not None:
+        s.default = s.force_default
+    elif r.random() < (0.8 if s.float else 0.3):
+        draw_default(r, s)
+
+
+def draw_vds(r, s):
+    lo, hi = raw_range(s)
+    k = r.randrange(1, 5)
+    if s.length == 1:
+        vals = r.sample([0, 1], r.randrange(1, 3))
+    else:
+        # VAL_ values travel through float64 in the parser: keep them exactly representable (|v| <= 2^53)
+        clo, chi = max(lo, -(1 << 53)), min(hi, 1 << 53)
+        cand = {clo, chi, 0 if clo <= 0 <= chi else clo, min(chi, 1), min(chi, 2), r.randrange(clo, chi + 1)}
+        vals = r.sample(sorted(cand), min(k, len(cand)))
+    s.vds = [(v, r.choice(VD_FORMATS) % (chr(65 + i), abs(v) % 1000)) for i, v in enumerate(vals)]
+    r.shuffle(s.vds)
+
+
+def draw_default(r, s):
+    lo, hi = raw_range(s)
+    if s.float:
+        # exactly representable in binary32; negative and large values exercise the order in which
+        # the compiler sees GenSigStartValue (BA_) and the float type (SIG_VALTYPE_)
+        s.default = r.choice(FLOAT_DEFAULTS)
+    elif s.length == 1:
+        s.default = r.choice([0, 1])
+    else:
+        s.default = r.choice([lo, hi, 0 if lo <= 0 <= hi else lo, r.randrange(lo, hi + 1)])
+        if abs(s.default) >= 1 << 53:
+            s.default = hi if s.length < 54 else r.choice([0, 1, 1000])
+
+
+def build_message(r, mi, my_force, nodes, with_sendtypes, ids_used, carrier=False, ext=None):
+    """one message with its signals, drawn from r. carrier: an empty 8-byte message that only
+    receives shared-name signals afterwards."""
+    m = Msg()
+    m.name = "Msg%s%d" % (chr(65 + r.randrange(26)), mi)
+    m.ext = r.random() < 0.35
+    if ext is not None:
+        m.ext = ext
+    while True:
+        if m.ext:
+            m.id = r.choice([0, 1, 0x7FF, 0x800, 1 << 28, (1 << 29) - 1, r.randrange(1 << 29), 1 << r.randrange(29)])
+        else:
+            m.id = r.choice([0, 1, 0x7FF, r.randrange(0x800), 1 << r.randrange(11)])
+        if m.id not in ids_used:
+            ids_used.add(m.id)
+            break
+    m.length = r.choice([8, 8, 8, 8, 7, 6, 5, 4, 3, 2, 1, 0])
+    if my_force is not None or carrier:
+        m.length = 8
+    m.sender = r.choice(nodes) if nodes and r.random() < 0.8 else "Vector__XXX"
+    m.desc = r.choice(["", "", "message %d comment" % mi, "with \\\"quote\\\" inside"])
+    m.sendtype = r.choice(SENDTYPES) if with_sendtypes and r.random() < 0.8 else None
+    m.cycle = r.choice([None, 10, 100, 1000, 0]) if with_sendtypes else None
+    m.delay = r.choice([None, None, 5]) if with_sendtypes else None
+    m.signals = []
+    m.extra = carrier
+    nbits = m.length * 8
+    used_plain = set()       # positions of non-multiplexed signals and the multiplexer
+    used_by_sel = {}         # selector -> positions
+    m.used_plain, m.used_by_sel, m.mux = used_plain, used_by_sel, None
+    if carrier:
+        return m
+    if my_force is not None:
+        # the forced shape of this message is placed first, at a position where it certainly fits
+        fl, fbe, fkind = my_force if isinstance(my_force, tuple) else (my_force, r.random() < 0.5, r.choice(["signed", "unsigned"]))
+        s = Sig()
+        s.name = "Forced%d" % mi
+        s.length = fl
+        for _ in range(200):
+            t = r.randrange(0, 64 - fl + 1)
+            if fbe:
+                start = 8 * (t // 8) + 7 - t % 8
+                pos = be_positions(start, fl)
+            else:
+                start = t
+                pos = le_positions(start, fl)
+            if not any(p in used_plain for p in pos):
+                break
+        else:
+            pos = None
+        if pos is not None:
+            s.be, s.start = fbe, start
+            s.muxed, s.muxval, s.is_mux = False, 0, False
+            s.float = fkind == "float" and fl == 32
+            s.signed = fkind == "signed" and not s.float
+            s.force_default = r.choice([-5, -1000, -3221225472]) if s.float else None
+            used_plain.update(pos)
+            m.signals.append(s)
+    has_mux = nbits >= 16 and r.random() < 0.45
+    mux = None
+    if has_mux:
+        l = r.choice([2, 3, 4, 8, 8, 9, 16])
+        g = pick_geometry(r, nbits, l, used_plain)
+        if g:
+            mux = Sig()
+            mux.name = "Mux%d" % mi
+            mux.be, mux.start, pos = g
+            mux.length, mux.signed, mux.float = l, False, False
+            mux.is_mux, mux.muxed, mux.muxval = True, False, 0
+            used_plain.update(pos)
+            m.signals.append(mux)
+    m.mux = mux
+    n_sigs = r.randrange(0, 9) if nbits else 0
+    for si in range(n_sigs):
+        s = Sig()
+        s.name = "Sig%s%d" % (chr(65 + r.randrange(26)), si)
+        s.length = r.choice([1, 1, 2, 3, 4, 7, 8, 9, 12, 15, 16, 17, 24, 31, 32, 33, 40, 48, 52, 63, 64])
+        if s.length > nbits:
+            continue
+        s.muxed = mux is not None and r.random() < 0.5
+        if not place_signal(r, m, s):
+            continue
+        s.float = s.length == 32 and r.random() < 0.4
+        s.signed = (not s.float) and r.random() < 0.5
+        m.signals.append(s)
+    # scaling / metadata per signal
+    for s in m.signals:
+        decorate(r, s, nodes)
+    r.shuffle(m.signals)
+    return m
+
+
+def place_signal(r, m, s):
+    """draws the selector (if s.muxed) and a free geometry for s in m; False when nothing fits"""
+    nbits = m.length * 8
+    s.muxval = 0
+    if s.muxed:
+        s.muxval = r.randrange(0, 1 << m.mux.length)
+        used = m.used_plain | m.used_by_sel.get(s.muxval, set())
+    else:
+        # a plain signal must avoid every multiplexed signal too
+        used = set(m.used_plain)
+        for v in m.used_by_sel.values():
+            used |= v
+    g = pick_geometry(r, nbits, s.length, used)
+    if not g:
+        return False
+    s.be, s.start, pos = g
+    if s.muxed:
+        m.used_by_sel.setdefault(s.muxval, set()).update(pos)
+    else:
+        m.used_plain.update(pos)
+    s.is_mux = False
+    return True
+
+
+SHARED_KINDS = ["float", "enum", "scaled", "plain"]
+
+
+def add_shared_signals(r2, msgs, nodes, forced):
+    """signals whose NAME is used in several messages (names are unique per message only). Every kind
+    carries the signal-level metadata definitions of the DBC format: float -> SIG_VALTYPE_ (+ start value),
+    enum -> VAL_, all -> CM_ SG_ / BA_ GenSigStartValue with good probability (forced: always)."""
+    kinds = list(SHARED_KINDS) if forced else r2.sample(SHARED_KINDS, r2.randrange(2, 5))
+    pool = [("Shr%s%s" % (k.capitalize(), chr(65 + r2.randrange(26))), k) for k in kinds]
+    for m in msgs:
+        for nm, kind in pool:
+            sure = forced and m.extra
+            if not sure and r2.random() >= 0.8:
+                continue
+            s = Sig()
+            s.name = nm
+            s.extra = True
+            s.length = {"float": 32, "enum": r2.choice([2, 3, 4, 8, 12, 16]), "scaled": r2.choice([8, 10, 12, 16, 24]),
+                        "plain": r2.choice([1, 4, 8])}[kind]
+            if sure:
+                s.length = min(s.length, 12)
+                if kind == "float":
+                    s.length = 32
+                if kind == "plain":
+                    s.length = 8
+            if s.length > m.length * 8:
+                continue
+            s.muxed = m.mux is not None and r2.random() < 0.4
+            placed = place_signal(r2, m, s)
+            if not placed and m.mux is not None:
+                s.muxed = not s.muxed          # a crowded message may still have room under another selector
+                placed = place_signal(r2, m, s)
+            if not placed and kind != "float" and s.length > 2:
+                s.length, s.muxed = 2, False
+                placed = place_signal(r2, m, s)
+            if not placed:
+                continue
+            s.float = kind == "float"
+            s.signed = (not s.float) and r2.random() < 0.5
+            decorate(r2, s, nodes)
+            if kind == "float":
+                s.factor, s.offset, s.min, s.max, s.vds = "1", "0", "0", "0", []
+                if sure or r2.random() < 0.7:
+                    s.default = r2.choice(FLOAT_DEFAULTS[1:])
+            elif kind == "enum":
+                if not s.vds:
+                    draw_vds(r2, s)
+            elif kind == "scaled" and s.factor == "1" and s.offset == "0":
+                s.factor, s.offset = r2.choice(SCALES), r2.choice(OFFSETS)
+            if sure or r2.random() < 0.6:
+                s.desc = s.desc or "shared %s of message %s" % (kind, m.name)
+            if (sure or r2.random() < 0.5) and not s.default:
+                draw_default(r2, s)
+                if not s.default and kind != "float":
+                    lo, hi = raw_range(s)
+                    s.default = hi
+            if sure and kind == "plain" and s.length >= 8:
+                # a start value that is written zero-padded (010): decimal, NOT octal
+                s.default, s.pad_default = r2.choice([10, 17, 25, 64, 100, 127]), True
+            m.signals.insert(r2.randrange(len(m.signals) + 1), s)
+    return pool
+
+
+def fmt_int(r2, v, padded, force=False):
+    """an INT attribute value as decimal digits, sometimes zero-padded (fixed-width exporters write 010, -012,
+    0100000): still the DECIMAL number. Only values whose digits are all below 8 are padded - text/scanner, which
+    the tree's parser is built on, rejects 08/09 as malformed octal literals. padded collects the values whose
+    reading as an octal literal would differ."""
+    digits = "%d" % abs(v)
+    if v != 0 and all(c in "01234567" for c in digits) and (force or r2.random() < 0.3):
+        if abs(v) >= 8:
+            padded.append(v)
+        return ("-" if v < 0 else "") + "0" * r2.randrange(1, 3) + digits
+    return "%d" % v
+
+
+def apply_names(msgs, names_from):
+    """TWIN programs: message j takes the name of message j of an earlier program of the batch and its signals
+    take that message's signal names (as far as both exist and no name is used twice), so that the two programs
+    agree in message AND signal names while lengths, signs, types, scaling and metadata come from different streams"""
+    taken_m = {m.name for m in msgs}
+    for m, (mname, snames) in zip(msgs, names_from):
+        if mname != m.name and mname in taken_m:
+            continue
+        taken_m.discard(m.name)
+        m.name = mname
+        taken_m.add(mname)
+        taken = {s.name for s in m.signals}
+        for s, sn in zip(m.signals, snames):
+            if sn == s.name or sn not in taken:
+                taken.discard(s.name)
+                s.name = sn
+                taken.add(sn)
+
+
+def arrange(r2, items, grouped, flip):
+    """items: [(line, signal or None)] in the order of the main stream. The lines of shared-name (extra)
+    signals stay where their message's lines are, or (grouped) are taken out and put back as one run of
+    directly consecutive lines per signal name, in ascending or descending message order, at a random place."""
+    if not grouped:
+        return [l for l, _ in items]
+    rest = [[l] for l, s in items if s is None or not getattr(s, "extra", False)]
+    blocks = {}
+    for l, s in items:
+        if s is not None and getattr(s, "extra", False):
+            blocks.setdefault(s.name, []).append(l)
+    for nm in sorted(blocks):
+        b = blocks[nm]
+        if flip[0]:
+            b = b[::-1]
+        flip[0] = not flip[0]
+        rest.insert(r2.randrange(len(rest) + 1), b)   # between other lines / runs, never inside a run
+    return [l for unit in rest for l in unit]
+
+
+def gen_program(rng, name, forced_widths, share=None, salt=0, names_from=None):
+    """returns (dbc_text, expected_db_lines, summary).
+    share: None = reuse signal names across messages with probability SHARE_PROB; True = the forced shape
+    (three extra messages that all carry the same four names, metadata lines of equal names consecutive,
+    both orders); False = never. The draws from rng do not depend on share."""
     n_nodes = rng.choice([0, 1, 2, 3, 4])
     nodes = ["Node%s%d" % (chr(65 + rng.randrange(26)), i) for i in range(n_nodes)]
     with_sendtypes = rng.random() < 0.6 and n_nodes > 0
@@ -78,162 +407,32 @@ def gen_program(rng, name, forced_widths):
     ids_used = set()
     forced = list(forced_widths)
     for mi in range(n_msgs):
-        m = Msg()
-        m.name = "Msg%s%d" % (chr(65 + rng.randrange(26)), mi)
-        m.ext = rng.random() < 0.35
-        while True:
-            if m.ext:
-                m.id = rng.choice([0, 1, 0x7FF, 0x800, 1 << 28, (1 << 29) - 1, rng.randrange(1 << 29), 1 << rng.randrange(29)])
-            else:
-                m.id = rng.choice([0, 1, 0x7FF, rng.randrange(0x800), 1 << rng.randrange(11)])
-            if m.id not in ids_used:
-                ids_used.add(m.id)
-                break
-        m.length = rng.choice([8, 8, 8, 8, 7, 6, 5, 4, 3, 2, 1, 0])
         my_force = forced.pop(0) if forced else None
-        if my_force is not None:
-            m.length = 8
-        m.sender = rng.choice(nodes) if nodes and rng.random() < 0.8 else "Vector__XXX"
-        m.desc = rng.choice(["", "", "message %d comment" % mi, "with \\\"quote\\\" inside"])
-        m.sendtype = rng.choice(SENDTYPES) if with_sendtypes and rng.random() < 0.8 else None
-        m.cycle = rng.choice([None, 10, 100, 1000, 0]) if with_sendtypes else None
-        m.delay = rng.choice([None, None, 5]) if with_sendtypes else None
-        m.signals = []
-        nbits = m.length * 8
-        used_plain = set()       # positions of non-multiplexed signals and the multiplexer
-        used_by_sel = {}         # selector -> positions
-        if my_force is not None:
-            # the forced shape of this message is placed first, at a position where it certainly fits
-            fl, fbe, fkind = my_force if isinstance(my_force, tuple) else (my_force, rng.random() < 0.5, rng.choice(["signed", "unsigned"]))
-            s = Sig()
-            s.name = "Forced%d" % mi
-            s.length = fl
-            for _ in range(200):
-                t = rng.randrange(0, 64 - fl + 1)
-                if fbe:
-                    start = 8 * (t // 8) + 7 - t % 8
-                    pos = be_positions(start, fl)
-                else:
-                    start = t
-                    pos = le_positions(start, fl)
-                if not any(p in used_plain for p in pos):
-                    break
-            else:
-                pos = None
-            if pos is not None:
-                s.be, s.start = fbe, start
-                s.muxed, s.muxval, s.is_mux = False, 0, False
-                s.float = fkind == "float" and fl == 32
-                s.signed = fkind == "signed" and not s.float
-                s.force_default = rng.choice([-5, -1000, -3221225472]) if s.float else None
-                used_plain.update(pos)
-                m.signals.append(s)
-        has_mux = nbits >= 16 and rng.random() < 0.45
-        mux = None
-        if has_mux:
-            l = rng.choice([2, 3, 4, 8, 8, 9, 16])
-            g = pick_geometry(rng, nbits, l, used_plain)
-            if g:
-                mux = Sig()
-                mux.name = "Mux%d" % mi
-                mux.be, mux.start, pos = g
-                mux.length, mux.signed, mux.float = l, False, False
-                mux.is_mux, mux.muxed, mux.muxval = True, False, 0
-                used_plain.update(pos)
-                m.signals.append(mux)
-        n_sigs = rng.randrange(0, 9) if nbits else 0
-        for si in range(n_sigs):
-            s = Sig()
-            s.name = "Sig%s%d" % (chr(65 + rng.randrange(26)), si)
-            s.length = rng.choice([1, 1, 2, 3, 4, 7, 8, 9, 12, 15, 16, 17, 24, 31, 32, 33, 40, 48, 52, 63, 64])
-            if s.length > nbits:
-                continue
-            s.muxed = mux is not None and rng.random() < 0.5
-            s.muxval = 0
-            if s.muxed:
-                s.muxval = rng.randrange(0, 1 << mux.length)
-                used = used_plain | used_by_sel.get(s.muxval, set())
-            else:
-                # a plain signal must avoid every multiplexed signal too
-                used = set(used_plain)
-                for v in used_by_sel.values():
-                    used |= v
-            g = pick_geometry(rng, nbits, s.length, used)
-            if not g:
-                continue
-            s.be, s.start, pos = g
-            if s.muxed:
-                used_by_sel.setdefault(s.muxval, set()).update(pos)
-            else:
-                used_plain.update(pos)
-            s.is_mux = False
-            s.float = s.length == 32 and rng.random() < 0.4
-            s.signed = (not s.float) and rng.random() < 0.5
-            m.signals.append(s)
-        # scaling / metadata per signal
-        for s in m.signals:
-            s.factor, s.offset, s.min, s.max = "1", "0", "0", "0"
-            s.unit = rng.choice(UNITS)
-            s.desc = rng.choice(["", "", "signal comment", "multi word, with comma"])
-            s.receivers = sorted(set(rng.sample(nodes, rng.randrange(0, len(nodes) + 1)))) if nodes else []
-            if not s.receivers:
-                s.receivers = ["Vector__XXX"]
-            s.default = None
-            s.vds = []
-            lo, hi = raw_range(s)
-            if not s.float and not s.is_mux and 2 <= s.length <= 52 and rng.random() < 0.55:
-                s.factor = rng.choice(SCALES)
-                s.offset = rng.choice(OFFSETS)
-                r = rng.random()
-                f, o = float(s.factor), float(s.offset)
-                a, b = sorted([lo * f + o, hi * f + o])
-                if r < 0.3:
-                    pass
-                elif r < 0.6:
-                    s.min, s.max = repr_float(a), repr_float(b)
-                else:
-                    q = (b - a) / 4
-                    s.min, s.max = repr_float(a + q), repr_float(b - q)
-            elif not s.float and not s.is_mux and s.length == 1 and rng.random() < 0.25:
-                # a 1-bit signal with a factor/offset/range stays a plain bool (no physical accessors)
-                s.factor = rng.choice(["2", "0.5", "1"])
-                s.offset = rng.choice(["0", "1", "-1"])
-                if rng.random() < 0.5:
-                    s.min, s.max = "0", "1"
-            elif not s.float and not s.is_mux and s.length >= 2 and rng.random() < 0.2:
-                # identity scale with a declared range equal to the raw range or narrower (<= 52 bits only)
-                if s.length <= 52 and rng.random() < 0.5:
-                    s.min, s.max = repr_float(lo // 2), repr_float(hi // 2)
-                elif s.length <= 52:
-                    s.min, s.max = repr_float(lo), repr_float(hi)
-            if not s.float and rng.random() < 0.3:
-                k = rng.randrange(1, 5)
-                if s.length == 1:
-                    vals = rng.sample([0, 1], rng.randrange(1, 3))
-                else:
-                    # VAL_ values travel through float64 in the parser: keep them exactly representable (|v| <= 2^53)
-                    clo, chi = max(lo, -(1 << 53)), min(hi, 1 << 53)
-                    cand = {clo, chi, 0 if clo <= 0 <= chi else clo, min(chi, 1), min(chi, 2), rng.randrange(clo, chi + 1)}
-                    vals = rng.sample(sorted(cand), min(k, len(cand)))
-                s.vds = [(v, rng.choice(["Val%s%d", "Val %s %d", "V\u00e4l%s%d", "val-%s_%d"]) % (chr(65 + i), abs(v) % 1000))
-                         for i, v in enumerate(vals)]
-                rng.shuffle(s.vds)
-            if getattr(s, "force_default", None) is not None:
-                s.default = s.force_default
-            elif rng.random() < (0.8 if s.float else 0.3):
-                if s.float:
-                    # exactly representable in binary32; negative and large values exercise the order in which
-                    # the compiler sees GenSigStartValue (BA_) and the float type (SIG_VALTYPE_)
-                    s.default = rng.choice([0, 1, 5, -5, -1000, 16777216, 3221225472, -3221225472])
-                elif s.length == 1:
-                    s.default = rng.choice([0, 1])
-                else:
-                    s.default = rng.choice([lo, hi, 0 if lo <= 0 <= hi else lo, rng.randrange(lo, hi + 1)])
-                    if abs(s.default) >= 1 << 53:
-                        s.default = hi if s.length < 54 else rng.choice([0, 1, 1000])
-        rng.shuffle(m.signals)
-        msgs.append(m)
+        msgs.append(build_message(rng, mi, my_force, nodes, with_sendtypes, ids_used))
     version = rng.choice(["", "1.0", "v 2"])
+    # ---------------- shared signal names (second stream)
+    r2 = derived_rng(rng, "share:%s:%d" % (name, salt))
+    forced_shape = share is True
+    if share is None:
+        share = r2.random() < SHARE_PROB
+    grouped = False
+    flip = [r2.random() < 0.5]
+    if share:
+        if forced_shape:
+            for k in range(3):
+                # float32 (SIG_VALTYPE_) inside an extended-ID and inside a standard-ID message
+                msgs.append(build_message(r2, n_msgs + k, None, nodes, with_sendtypes, ids_used, carrier=True,
+                                          ext=[True, False, None][k]))
+        add_shared_signals(r2, msgs, nodes, forced_shape)
+        grouped = forced_shape or r2.random() < 0.75
+    if names_from:
+        apply_names(msgs, names_from)
+    return render_program(rng, r2, name, nodes, msgs, version, with_sendtypes, grouped, flip)
+
+
+def render_program(rng, r2, name, nodes, msgs, version, with_sendtypes, grouped=False, flip=None):
+    """prints the DBC text (lines of the main stream drawn from rng, additions from r2) and the database it denotes"""
+    flip = flip or [False]
     # ---------------- print the DBC text
     nl = "\n"
     L = []
@@ -259,14 +458,15 @@ def gen_program(rng, name, forced_widths):
     meta = []
     for n in nodes:
         if rng.random() < 0.4:
-            meta.append('CM_ BU_ %s "node %s comment";' % (n, n))
+            meta.append(('CM_ BU_ %s "node %s comment";' % (n, n), None))
     for m in msgs:
         did = m.id | (0x80000000 if m.ext else 0)
         if m.desc:
-            meta.append('CM_ BO_ %d "%s";' % (did, m.desc))
+            meta.append(('CM_ BO_ %d "%s";' % (did, m.desc), None))
         for s in m.signals:
             if s.desc:
-                meta.append('CM_ SG_ %d %s "%s";' % (did, s.name, s.desc))
+                meta.append(('CM_ SG_ %d %s "%s";' % (did, s.name, s.desc), s))
+    meta = arrange(r2, meta, grouped, flip)
     L += meta
     attrs = []
     if with_sendtypes:
@@ -279,30 +479,39 @@ def gen_program(rng, name, forced_widths):
         attrs.append('BA_DEF_DEF_ "GenMsgSendType" "None";')
         attrs.append('BA_DEF_DEF_ "GenMsgCycleTime" 0;')
     attrs.append('BA_DEF_DEF_ "GenSigStartValue" 0;')
-    vals = []
+    vals, more, padded = [], [], []
     for m in msgs:
         did = m.id | (0x80000000 if m.ext else 0)
+        r = r2 if m.extra else rng
+        dst = more if m.extra else vals
         if m.sendtype:
-            if rng.random() < 0.5:
-                vals.append('BA_ "GenMsgSendType" BO_ %d "%s";' % (did, m.sendtype[0]))
+            if r.random() < 0.5:
+                dst.append(('BA_ "GenMsgSendType" BO_ %d "%s";' % (did, m.sendtype[0]), None))
             else:
-                vals.append('BA_ "GenMsgSendType" BO_ %d %d;' % (did, ["None", "Cyclic", "OnEvent", "Event", "cyclicIfActive", "Periodic"].index(m.sendtype[0])))
+                dst.append(('BA_ "GenMsgSendType" BO_ %d %d;' % (did, ["None", "Cyclic", "OnEvent", "Event", "cyclicIfActive", "Periodic"].index(m.sendtype[0])), None))
         if m.cycle is not None:
-            vals.append('BA_ "GenMsgCycleTime" BO_ %d %d;' % (did, m.cycle))
+            dst.append(('BA_ "GenMsgCycleTime" BO_ %d %s;' % (did, fmt_int(r2, m.cycle, padded)), None))
         if m.delay is not None:
-            vals.append('BA_ "GenMsgDelayTime" BO_ %d %d;' % (did, m.delay))
+            dst.append(('BA_ "GenMsgDelayTime" BO_ %d %s;' % (did, fmt_int(r2, m.delay, padded)), None))
         for s in m.signals:
             if s.default is not None:
-                vals.append('BA_ "GenSigStartValue" SG_ %d %s %d;' % (did, s.name, s.default))
+                (more if getattr(s, "extra", False) else dst).append(
+                    ('BA_ "GenSigStartValue" SG_ %d %s %s;' % (did, s.name, fmt_int(r2, s.default, padded, getattr(s, "pad_default", False))), s))
     rng.shuffle(vals)
+    for item in more:
+        # additions of the second stream: anywhere among the shuffled lines (grouped: see arrange)
+        vals.insert(r2.randrange(len(vals) + 1), item)
+    vals = arrange(r2, vals, grouped, flip)
     L += attrs + vals
+    tail = []
     for m in msgs:
         did = m.id | (0x80000000 if m.ext else 0)
         for s in m.signals:
             if s.vds:
-                L.append("VAL_ %d %s %s ;" % (did, s.name, " ".join('%d "%s"' % (v, t) for v, t in s.vds)))
+                tail.append(("VAL_ %d %s %s ;" % (did, s.name, " ".join('%d "%s"' % (v, t) for v, t in s.vds)), s))
             if s.float:
-                L.append("SIG_VALTYPE_ %d %s : 1;" % (did, s.name))
+                tail.append(("SIG_VALTYPE_ %d %s : 1;" % (did, s.name), s))
+    L += arrange(r2, tail, grouped, flip)
     text = nl.join(L) + nl
     # ---------------- the database the text denotes
     D = []
@@ -327,13 +536,53 @@ def gen_program(rng, name, forced_widths):
                 fbits(s.offset), fbits(s.factor), fbits(s.min), fbits(s.max), hs(s.unit), hs(s.desc),
                 hx(s.default or 0), len(vds), "".join(" %s %s" % (hx(v), hs(t)) for v, t in vds),
                 len(s.receivers), "".join(" " + hs(r) for r in s.receivers)))
+    names = {}
+    for m in msgs:
+        for s in m.signals:
+            names.setdefault(s.name, set()).add(m.name)
     summary = {"messages": len(msgs), "signals": sum(len(m.signals) for m in msgs), "nodes": len(nodes),
                "widths": sorted({s.length for m in msgs for s in m.signals}),
                "muxed": sum(1 for m in msgs for s in m.signals if s.muxed),
                "float": sum(1 for m in msgs for s in m.signals if s.float),
                "scaled": sum(1 for m in msgs for s in m.signals if s.factor != "1" or s.offset != "0"),
-               "extended": sum(1 for m in msgs if m.ext), "sendtypes": with_sendtypes}
+               "extended": sum(1 for m in msgs if m.ext), "sendtypes": with_sendtypes,
+               "names_in_several_messages": sum(1 for v in names.values() if len(v) > 1),
+               "consecutive_same_name_lines": consecutive_same_name(L),
+               "zero_padded_ints_whose_octal_reading_differs": len(padded),
+               "float_signals_in_extended_messages": sum(1 for m in msgs if m.ext for s in m.signals if s.float),
+               "name_stream": [[m.name, [s.name for s in m.signals]] for m in msgs]}
     return text, D, summary
+
+
+_SIG_META = [("SIG_VALTYPE_", 1, 2), ("VAL_", 1, 2), ("CM_ SG_", 2, 3), ('BA_ "GenSigStartValue" SG_', 3, 4)]
+
+
+def consecutive_same_name(lines):
+    """per kind of signal-level metadata definition: number of places where two directly consecutive
+    definitions name the same signal of DIFFERENT messages; and how many of these places have the two
+    messages in the order of their BO_ definitions (ascending) / in the opposite order (descending)"""
+    out = {k: 0 for k, _, _ in _SIG_META}
+    out["ascending"] = out["descending"] = 0
+    order = [l.split()[1] for l in lines if l.startswith("BO_ ")]
+    prev = None
+    for l in lines:
+        cur = None
+        for k, im, isg in _SIG_META:
+            if l.startswith(k + " "):
+                t = l.split()
+                cur = (k, t[im], t[isg])
+        if cur and prev and cur[0] == prev[0] and cur[2] == prev[2] and cur[1] != prev[1]:
+            out[cur[0]] += 1
+            out["ascending" if order.index(prev[1]) < order.index(cur[1]) else "descending"] += 1
+        prev = cur
+    return out
+
+
+def has_forced_share_shape(summary):
+    c = summary["consecutive_same_name_lines"]
+    return (all(c[k] >= 1 for k, _, _ in _SIG_META) and c["ascending"] >= 1 and c["descending"] >= 1
+            and summary["zero_padded_ints_whose_octal_reading_differs"] >= 1
+            and summary["float_signals_in_extended_messages"] >= 1)
 
 
 def raw_range(s):
@@ -370,6 +619,232 @@ def gen_batch(seed, count):
     for i in range(count):
         name = "p%d" % i
         fw = forced[i * per:(i + 1) * per]
-        text, db, summary = gen_program(rng, name, fw)
+        if i == seed % count:
+            # the forced shape: signal names reused across messages, the SIG_VALTYPE_ / VAL_ / CM_ SG_ /
+            # GenSigStartValue definitions of equal names directly consecutive, in both message orders
+            st = rng.getstate()
+            for salt in range(50):
+                rng.setstate(st)
+                text, db, summary = gen_program(rng, name, fw, share=True, salt=salt)
+                if has_forced_share_shape(summary):
+                    break
+        else:
+            text, db, summary = gen_program(rng, name, fw)
+        progs.append((name, text, db, summary))
+    # TWIN programs (added to the batch): same message and signal names as an earlier program, everything else from
+    # another stream - one process compiles and generates the whole batch (as `cantool generate <dir>` does)
+    rt = random.Random(seed * 31337 + 3)
+    for target in rt.sample(range(count), min(count, 2 if count <= 24 else 4)):
+        name = "p%d" % len(progs)
+        fw = rt.sample(WIDTH_BOUNDARIES, 2)
+        text, db, summary = gen_program(rt, name, fw, names_from=progs[target][3]["name_stream"])
+        summary["twin_of"] = progs[target][0]
+        progs.append((name, text, db, summary))
+    return progs
+
+
+# --------------------------------------------------------------------------- programs for the generated-code stage of C09
+
+PHYS_SCALES = SCALES + ["1e-6", "1e6", "0.000001", "1000000", "0.2", "0.3", "7", "1.5", "-0.001", "-100", "-0.5", "0.03125",
+                        "1048576", "9.5367431640625e-07", "-3", "1e-4", "0.05", "1"]
+PHYS_OFFSETS = OFFSETS + ["-273.15", "1e6", "-1e6", "100", "-0.5", "1", "-1"]
+
+
+def phys_decorate(r, s, nodes, scaled=True):
+    """a signal of the class of C09: finite non-zero factor of either sign, finite offset, and a range that is
+    absent / natural / narrower / wider / only-Max / only-Min / not aligned to the steps"""
+    s.factor, s.offset, s.min, s.max = "1", "0", "0", "0"
+    s.unit = r.choice(UNITS)
+    s.desc = r.choice(DESCS)
+    s.receivers = ["Vector__XXX"] if not nodes else sorted(set(r.sample(nodes, r.randrange(1, len(nodes) + 1))))
+    s.default, s.vds, s.float = None, [], False
+    lo, hi = raw_range(s)
+    if scaled and s.length >= 2:
+        s.factor = r.choice(PHYS_SCALES)
+        s.offset = r.choice(PHYS_OFFSETS)
+        if r.random() < 0.15:
+            s.offset = repr_float(-float(s.factor) * (1 << (s.length - 1)))      # centred
+        elif r.random() < 0.15:
+            s.offset = repr_float(float(s.factor) * r.randrange(-1000, 1001))     # a multiple of the step
+        f, o = float(s.factor), float(s.offset)
+        if f == 1 and o == 0:
+            s.offset, o = "0.5", 0.5
+        a, b = sorted([lo * f + o, hi * f + o])
+        w = b - a
+        k = r.randrange(8)
+        if k <= 1:
+            mn, mx = 0.0, 0.0
+        elif k == 2:
+            mn, mx = a, b
+        elif k == 3:
+            mn, mx = a + w / 4, b - w / 4
+        elif k == 4:
+            mn, mx = a - w - 1, b + w + 1
+        elif k == 5:     # only Max
+            mn, mx = 0.0, r.choice([abs(b) + abs(a) / 2 + 1, abs(b) / 2 if b != 0 else 1.0])
+        elif k == 6:     # only Min
+            mn, mx = r.choice([-(abs(a) + 1), -abs(w) / 4]), 0.0
+        else:
+            mid = a + w * r.random()
+            mn, mx = mid - abs(f) * 3.3, mid + abs(f) * 7.7
+        if mn > mx:
+            mn, mx = mx, mn
+        s.min, s.max = repr_float(mn), repr_float(mx)
+    elif s.length >= 2:
+        # identity scale (factor 1, offset 0): physical accessors exist exactly when a declared range constrains the
+        # raw range - including ranges in which ONE bound coincides with the raw limit and only the other constrains
+        k = r.randrange(8)
+        mid = [v for v in (-100, -5, -1, 0, 1, 5, 100, lo // 2, hi // 2) if lo < v < hi]
+        c = r.choice(mid) if mid else lo
+        if k == 0:
+            s.min, s.max = repr_float(lo), repr_float(hi)             # the raw range itself: not constraining
+        elif k <= 2:
+            s.min, s.max = repr_float(min(c, 0) if s.signed else 0), repr_float(hi)   # max at the raw limit, min constrains (signed)
+        elif k <= 4:
+            s.min, s.max = repr_float(lo), repr_float(max(c, 1))      # min at the raw limit, max constrains
+        elif k == 5:
+            s.min, s.max = repr_float(min(c, hi - 1)), repr_float(hi)  # max at the raw limit, any min
+        elif k == 6:
+            a, b = sorted([c, r.choice(mid) if mid else hi])
+            s.min, s.max = repr_float(a), repr_float(b if b != a else hi)
+    if r.random() < 0.15:
+        draw_vds(r, s)
+    if r.random() < 0.3:
+        draw_default(r, s)
+
+
+def phys_place(r, m, s, lo_bit=0):
+    """like place_signal but only at start bits >= lo_bit (little-endian) when lo_bit > 0"""
+    if not lo_bit:
+        return place_signal(r, m, s)
+    nbits = m.length * 8
+    s.muxval, s.is_mux = 0, False
+    used = set(m.used_plain)
+    for v in m.used_by_sel.values():
+        used |= v
+    for _ in range(60):
+        if nbits - s.length < lo_bit:
+            return False
+        st = r.randrange(lo_bit, nbits - s.length + 1)
+        pos = le_positions(st, s.length)
+        if not any(p in used for p in pos):
+            s.be, s.start = False, st
+            m.used_plain.update(pos)
+            return True
+    return False
+
+
+def gen_phys_program(rng, name, names_from=None):
+    """a program whose signals are mostly scaled integer signals (2..52 bits) with physical accessors:
+    plain ones, multiplexed ones, and in multiplexed messages always-present scaled signals at HIGHER start
+    bits than multiplexed ones (descriptor order by start bit then interleaves the two kinds)"""
+    nodes = ["Node%s%d" % (chr(65 + rng.randrange(26)), i) for i in range(rng.choice([0, 1, 2]))]
+    msgs, ids_used = [], set()
+    n_msgs = rng.randrange(3, 6)
+    for mi in range(n_msgs):
+        m = Msg()
+        m.name = "Msg%s%d" % (chr(65 + rng.randrange(26)), mi)
+        m.ext = rng.random() < 0.3
+        while True:
+            m.id = rng.randrange(1 << 29) if m.ext else rng.randrange(0x800)
+            if m.id not in ids_used:
+                ids_used.add(m.id)
+                break
+        m.length = rng.choice([8, 8, 8, 8, 6, 4])
+        m.sender = rng.choice(nodes) if nodes and rng.random() < 0.8 else "Vector__XXX"
+        m.desc, m.sendtype, m.cycle, m.delay, m.extra = "", None, None, None, False
+        m.signals, m.used_plain, m.used_by_sel, m.mux = [], set(), {}, None
+        nbits = m.length * 8
+        with_mux = mi == 0 or rng.random() < 0.6
+        if with_mux:
+            mux = Sig()
+            mux.name = "Mux%d" % mi
+            mux.length = rng.choice([2, 3, 4, 8])
+            mux.signed, mux.float, mux.muxed, mux.is_mux = False, False, False, True
+            if mi == 0 or rng.random() < 0.5:
+                mux.be, mux.start, mux.muxval = False, 0, 0
+                m.used_plain.update(le_positions(0, mux.length))
+                m.mux = mux
+            else:
+                m.mux = mux
+                mux.muxed = False
+                if not place_signal(rng, m, mux):
+                    m.mux = None
+                mux.is_mux = True
+            if m.mux is not None:
+                m.signals.append(mux)
+        hi_mux = 0
+        n = rng.randrange(3, 8)
+        n_muxed = rng.randrange(1, 4) if m.mux is not None else 0
+        for si in range(n):
+            s = Sig()
+            s.name = "Sig%s%d" % (chr(65 + rng.randrange(26)), si)
+            # the first signals of a multiplexed message are multiplexed, the following ones always present and
+            # (every second multiplexed message, so always in message 0) placed at higher start bits than the
+            # multiplexed ones
+            s.muxed = si < n_muxed
+            if s.muxed:
+                s.length = rng.choice([2, 3, 4, 7, 8, 9, 10, 12, 16])
+            else:
+                s.length = rng.choice([2, 3, 4, 5, 7, 8, 9, 10, 12, 12, 13, 16, 16, 17, 20, 24, 31, 32, 33, 40, 52, 1])
+            if s.length > nbits:
+                continue
+            behind = m.mux is not None and not s.muxed and hi_mux and (mi % 2 == 0)
+            s.signed = rng.random() < 0.5
+            if s.muxed:
+                if not place_signal(rng, m, s):
+                    continue
+                hi_mux = max(hi_mux, s.start + 1)
+            else:
+                if behind and nbits - s.length < hi_mux:
+                    s.length = rng.choice([2, 3, 4, 8])
+                if not phys_place(rng, m, s, hi_mux if behind else 0):
+                    if not place_signal(rng, m, s):
+                        continue
+            phys_decorate(rng, s, nodes, scaled=rng.random() < 0.8)
+            m.signals.append(s)
+        if m.mux is not None:
+            mux = m.mux
+            mux.factor, mux.offset, mux.min, mux.max, mux.unit, mux.desc = "1", "0", "0", "0", "", ""
+            mux.receivers, mux.default, mux.vds = ["Vector__XXX"], None, []
+        rng.shuffle(m.signals)
+        msgs.append(m)
+    r2 = derived_rng(rng, "phys:" + name)
+    if names_from:
+        apply_names(msgs, names_from)
+    return render_program(rng, r2, name, nodes, msgs, "", False)
+
+
+def plain_behind_muxed(db_lines):
+    """number of always-present signals with physical scaling that follow a multiplexed signal in descriptor order"""
+    n, seen_muxed = 0, False
+    for line in db_lines:
+        if line.startswith("MSG "):
+            seen_muxed = False
+        elif line.startswith("SIGD "):
+            t = line.split()
+            if t[8] == "1":
+                seen_muxed = True
+            elif seen_muxed and t[7] == "0" and (t[11] != fbits("1") or t[10] != fbits("0")):
+                n += 1
+    return n
+
+
+def gen_phys_batch(seed, count):
+    """the last programs (2 of up to 24, else 4) are TWINS of the first ones: same message and signal names, other
+    lengths / signs / scaling (one process generates the whole batch)"""
+    rng = random.Random(seed * 104729 + 5)
+    progs = []
+    twins = 0 if count < 3 else (2 if count <= 24 else 4)
+    for i in range(count):
+        name = "p%d" % i
+        t = i - (count - twins)
+        while True:
+            text, db, summary = gen_phys_program(rng, name, names_from=progs[t][3]["name_stream"] if t >= 0 else None)
+            summary["plain_scaled_behind_multiplexed"] = plain_behind_muxed(db)
+            if summary["plain_scaled_behind_multiplexed"] > 0:
+                break
+        if t >= 0:
+            summary["twin_of"] = progs[t][0]
         progs.append((name, text, db, summary))
     return progs
